@@ -69,12 +69,14 @@ def basis_vec(plane, angle, b):
 
 
 class St:
-    """state on the live wires only; a wire that is not live is in |0> and unentangled"""
+    """state on the live wires only; a wire that is not live is in |0> and unentangled.  Gates are queued and applied
+    lazily: before a wire is measured, exactly the queued gates that precede it in the per-wire order are applied
+    (this only reorders gates acting on disjoint wires), which keeps the live register small."""
     def __init__(self):
-        self.w, self.psi = [], np.ones((), dtype=complex)
+        self.w, self.psi, self.pending = [], np.ones((), dtype=complex), []
 
     def copy(self):
-        s = St(); s.w, s.psi = list(self.w), self.psi
+        s = St(); s.w, s.psi, s.pending = list(self.w), self.psi, list(self.pending)
         return s
 
     def ensure(self, wires):
@@ -84,30 +86,50 @@ class St:
                 self.w.append(x)
 
     def apply(self, U, wires):
+        self.pending.append((U, list(wires)))
+
+    def _apply_now(self, U, wires):
         self.ensure(wires)
         k = len(wires)
         ax = [self.w.index(x) for x in wires]
         self.psi = np.moveaxis(np.tensordot(np.asarray(U).reshape((2,) * (2 * k)), self.psi, axes=(list(range(k, 2 * k)), ax)), list(range(k)), ax)
 
+    def flush(self, wires=None):
+        if wires is None:
+            todo, self.pending = self.pending, []
+        else:
+            need, take = set(wires), [False] * len(self.pending)
+            for i in range(len(self.pending) - 1, -1, -1):
+                if need.intersection(self.pending[i][1]):
+                    take[i] = True
+                    need.update(self.pending[i][1])
+            todo = [g for g, t in zip(self.pending, take) if t]
+            self.pending = [g for g, t in zip(self.pending, take) if not t]
+        for U, ws in todo:
+            self._apply_now(U, ws)
+
     def project_drop(self, wire, vec):
+        self.flush([wire])
         self.ensure([wire])
         ax = self.w.index(wire)
         self.psi = np.tensordot(np.conj(vec), self.psi, axes=(0, ax))
         self.w.pop(ax)
 
     def project_keep(self, wire, b):
-        self.ensure([wire])
+        self.flush([wire])
         P = np.zeros((2, 2), dtype=complex); P[b, b] = 1
-        self.apply(P, [wire])
+        self._apply_now(P, [wire])
 
     def tensor(self, order):
         """amplitudes with axes in `order`; wires missing from the live set are |0>; extra live wires are contracted with <0|"""
         s = self.copy()
+        s.flush()
         s.ensure(order)
+        w2 = float(np.vdot(s.psi, s.psi).real)
         for x in list(s.w):
             if x not in order:
                 s.project_drop(x, np.array([1, 0], dtype=complex))
-        return np.transpose(s.psi, [s.w.index(x) for x in order]), float(np.vdot(self.psi, self.psi).real)
+        return np.transpose(s.psi, [s.w.index(x) for x in order]), w2
 
 
 def cond_value(item, vals):
@@ -169,7 +191,7 @@ def unitary(ops, lw):
     for g in ops:
         if g["name"] == "GlobalPhase" or not g["wires"]:
             continue
-        s.apply(gate_matrix(g["name"], g.get("params", [])), [("o", w) for w in g["wires"]])
+        s._apply_now(gate_matrix(g["name"], g.get("params", [])), [("o", w) for w in g["wires"]])
     return s.psi
 
 
@@ -197,7 +219,7 @@ def check_program(ctx, tag, spec, res, variant, mode, rng, nleaf, stats):
         T, w = st.tensor(order)
         stats["min_w"] = min(stats["min_w"], w * 2 ** len(outs)); stats["max_w"] = max(stats["max_w"], w * 2 ** len(outs))
         ov = abs(np.vdot(E, T)) ** 2
-        if not (w > 1e-12 and abs(ov / w - 1) < 1e-9) and len(bad) < 3:
+        if not (w * 2 ** len(outs) > 1e-6 and abs(ov / w - 1) < 1e-9) and len(bad) < 3:
             bad.append({"outcomes": outs, "weight": w, "fidelity": float(ov / w) if w > 0 else None})
     if mode == "all":
         walk(prog, init(), lambda k: [0, 1], leaf)
@@ -342,7 +364,7 @@ def frame_mat(F):
 def embed(U, wires, n):
     s = St(); s.w = [("o", i) for i in range(n)] + [("i", i) for i in range(n)]
     s.psi = np.eye(2 ** n, dtype=complex).reshape((2,) * (2 * n))
-    s.apply(U, [("o", w) for w in wires])
+    s._apply_now(U, [("o", w) for w in wires])
     return s.psi.reshape(2 ** n, 2 ** n)
 
 
@@ -352,7 +374,10 @@ def prop_phase(A, B):
 
 
 def run(ctx):
+    import time
+    T0 = time.time(); timing = {}
     ctx.coq_props()
+    timing["coq_props"] = round(time.time() - T0, 1)
     rng = ctx.rng
     quick = ctx.tier == "quick"
     # ================================================================ B: conversion request
@@ -361,8 +386,8 @@ def run(ctx):
                {"name": "RZ", "wires": [0], "params": [pyth_angle(rng)]}, {"name": "RZ", "wires": [0], "params": [rng.uniform(-6, 6)]},
                {"name": "RotXZX", "wires": [0], "params": [pyth_angle(rng) for _ in range(3)]},
                {"name": "RotXZX", "wires": [0], "params": [rng.uniform(-6, 6) for _ in range(3)]}]
-    for g in singles:
-        circuits.append(("single", {"ops": [g], "meas_wires": [0]}))
+    for i, g in enumerate(singles):
+        circuits.append(("single_exact" if i in (0, 1, 2, 4) else "single", {"ops": [g], "meas_wires": [0]}))
     circuits.append(("single", {"ops": [{"name": "CNOT", "wires": [0, 1], "params": []}], "meas_wires": [0, 1]}))
     circuits.append(("single", {"ops": [{"name": "CNOT", "wires": [1, 0], "params": []}], "meas_wires": [1, 0]}))
     for g in ("X", "Y", "Z", "I"):
@@ -396,12 +421,18 @@ def run(ctx):
     gateset = [{"ops": [{"name": "Rot", "wires": [0], "params": [rng.uniform(-3, 3) for _ in range(3)]}, {"name": "T", "wires": [0], "params": []},
                         {"name": "RX", "wires": [1], "params": [rng.uniform(-3, 3)]}, {"name": "CZ", "wires": [0, 1], "params": []},
                         {"name": "SX", "wires": [1], "params": []}, {"name": "SWAP", "wires": [0, 1], "params": []}], "meas_wires": [0, 1]}]
-    idspecs = []
-    conv = ctx.run_impl("c74_impl.py", {"mode": "convert", "circuits": [c for _, c in circuits], "graphs": graphs, "mcms": mcms, "gateset": gateset}, timeout=3000)
-    # initial logical->physical map: convert Identity-only tapes on the same wire sets
-    lws = sorted({tuple(r["logical_wires"]) for r in conv["circuits"]})
-    idc = ctx.run_impl("c74_impl.py", {"mode": "convert", "circuits": [{"ops": [{"name": "I", "wires": [w], "params": []} for w in lw], "meas_wires": list(lw)} for lw in lws]}, timeout=3000)
-    inmap = {lw: r["mbqc"]["out_wires"] for lw, r in zip(lws, idc["circuits"])}
+    # initial logical->physical map: also convert Identity-only tapes on the same (ordered) wire sets
+    def tape_wires(spec):
+        ws = []
+        for w in [w for g in spec["ops"] for w in g["wires"]] + spec["meas_wires"]:
+            if w not in ws:
+                ws.append(w)
+        return tuple(ws)
+    lws = sorted({tape_wires(c) for _, c in circuits})
+    idspecs = [{"ops": [{"name": "I", "wires": [w], "params": []} for w in lw], "meas_wires": list(lw)} for lw in lws]
+    conv = ctx.run_impl("c74_impl.py", {"mode": "convert", "circuits": [c for _, c in circuits] + idspecs, "graphs": graphs, "mcms": mcms, "gateset": gateset}, timeout=3000)
+    inmap = {lw: r["mbqc"]["out_wires"] for lw, r in zip(lws, conv["circuits"][len(circuits):])}
+    timing["convert"] = round(time.time() - T0, 1)
     stats = {"branches": 0, "min_w": 9.0, "max_w": 0.0, "programs": 0, "cnot_full": 0, "graph_items": 0, "offline_branches": 0, "exact_branches": 0}
     tracker_cases, pending_off, exact_req, exact_meta = [], [], [], []
     for (tag, spec), res in zip(circuits, conv["circuits"]):
@@ -409,6 +440,8 @@ def run(ctx):
             ctx.violation("convert-error:" + json.dumps(spec, sort_keys=True)[:300], {"circuit": spec, "error": res["error"]},
                           what="convert_to_mbqc_formalism raised on a circuit over the supported gate set")
             continue
+        if tuple(res["logical_wires"]) != tape_wires(spec):
+            raise RuntimeError(f"harness: tape wire order {res['logical_wires']} differs from the predicted {tape_wires(spec)}")
         res["in_wires"] = inmap[tuple(res["logical_wires"])]
         # graph-state structure: H on every wire, CZ exactly on the graph edges under the sorted-node wire map
         for variant in ("mbqc", "mbqc_diag", "mbqc_then_diag"):
@@ -424,7 +457,7 @@ def run(ctx):
         nmeas = n_mid(spec["ops"])
         for variant in ("mbqc", "mbqc_diag", "mbqc_then_diag"):
             stats["programs"] += 1
-            if tag == "single" and (nmeas <= 4 or (variant == "mbqc" or not quick)):
+            if tag.startswith("single"):
                 mode = "all"
                 stats["cnot_full"] += (nmeas == 13)
             else:
@@ -447,8 +480,7 @@ def run(ctx):
                 vals = [rng.randrange(2) for _ in mw]
                 tracker_cases.append({"k": "byprod", "ops": spec["ops"], "mw": mw, "mid": outs, "vals": vals})
                 pending_off.append((len(tracker_cases) - 1, st, order, E, lw, spec))
-        if tag in ("exact",) or (tag == "single" and len(res["logical_wires"]) == 1 and spec["ops"][0]["name"] in ("H", "S", "RZ", "RotXZX")
-                                 and all(abs(math.cos(p) * 841 * 841 - round(math.cos(p) * 841 * 841)) < 1e-6 for p in spec["ops"][0]["params"])):
+        if tag in ("exact", "single_exact"):
             prog, outw, inw = res["mbqc"]["ops"], res["mbqc"]["out_wires"], res["in_wires"]
             used = sorted({inw[0]} | {w for it in prog for w in (it.get("wires") or [it.get("wire")] if it["t"] != "cond" else (it["then"].get("wires") or [it["then"].get("wire")]))})
             cmap = {w: i for i, w in enumerate(used)}
@@ -478,6 +510,7 @@ def run(ctx):
                             gates.append({"name": "MeasReset", "wires": [cmap[it["wire"]]], "angle": it["angle"], "b": b})
                     exact_req.append({"n": len(used), "gates": gates})
                     exact_meta.append({"spec": spec, "branch": list(br), "input": inp, "n": len(used), "out": cmap[outw[0]], "nm": nm})
+    timing["branch_sim"] = round(time.time() - T0, 1)
     # ================================================================ A: tracker cases
     a_start = len(tracker_cases)
     for op, nwires in (("H", 1), ("S", 1), ("CNOT", 2)):
@@ -531,9 +564,11 @@ def run(ctx):
     for c in tracker_cases:
         drv_cases.append(c)
     out = ctx.run_impl("c74_impl.py", {"mode": "tracker", "cases": drv_cases, "exact": exact_req}, timeout=3000)
+    timing["tracker_impl"] = round(time.time() - T0, 1)
     obs = out["cases"]
     terms = [g_case(c, o) for c, o in zip(tracker_cases, obs)]
     badidx = ctx.coq_eval_cases("cases", "From PLV Require Import Disc.PauliTrackModel.", [f"({t})" for t in terms], "check_case")
+    timing["coq_cases"] = round(time.time() - T0, 1)
     hist = {}
     nontrivial = set()
     for i, (c, o) in enumerate(zip(tracker_cases, obs)):
@@ -584,12 +619,13 @@ def run(ctx):
             st.apply(pauli_mat(o["x"][w], o["z"][w]), [order[i]])
         T, wgt = st.tensor(order)
         ov = abs(np.vdot(E, T)) ** 2
-        if not (wgt > 1e-12 and abs(ov / wgt - 1) < 1e-9):
+        if not (wgt * 2 ** len(c["mid"]) > 1e-6 and abs(ov / wgt - 1) < 1e-9):
             ctx.violation("offline:" + json.dumps(spec, sort_keys=True)[:300], {"circuit": spec, "mid_meas": c["mid"], "record": o, "fidelity": float(ov / wgt) if wgt > 0 else None},
                           what="the (x, z) record of get_byproduct_corrections does not repair the uncorrected MBQC branch state")
     # exact route: Coq simulates the branch circuits over Q(zeta_8)
     ex_ok = [(m, t) for m, t in zip(exact_meta, out["exact"]) if t is not None]
-    states = exactsim.exact_states(ctx, "branch", [(m["n"], t) for m, t in ex_ok], chunk=8) if ex_ok else []
+    states = exactsim.exact_states(ctx, "branch", [(m["n"], t) for m, t in ex_ok], chunk=16) if ex_ok else []
+    timing["coq_exact"] = round(time.time() - T0, 1)
     for (m, _), psi in zip(ex_ok, states):
         stats["exact_branches"] += 1
         U = unitary(m["spec"]["ops"], [0])
@@ -640,9 +676,9 @@ def run(ctx):
             ctx.violation("gateset:" + json.dumps(spec, sort_keys=True)[:300], {"circuit": spec, "converted": res, "unsupported": bad_names}, what="convert_to_mbqc_gateset changed the unitary or left gates outside the MBQC gate set")
     ctx.coverage.update({"evaluations": len(tracker_cases) + stats["branches"] + stats["offline_branches"] + stats["exact_branches"],
                          "distinct_nontrivial": len(nontrivial) + stats["branches"],
-                         "rule": "A: exhaustive frames for H,S,CNOT + malformed stream + random Clifford circuits/frames + random tapes with mid-measurement records; B: every branch of each single-gate pattern (CNOT: all 8192 for the non-diagonalized variant in quick), sampled branches of random 1-2 wire circuits, 3 conversion variants",
+                         "rule": "A: exhaustive frames for H,S,CNOT + malformed stream + random Clifford circuits/frames + random tapes with mid-measurement records; B: every branch of each single-gate pattern (CNOT: all 8192, each variant), sampled branches of random 1-2 wire circuits, 3 conversion variants",
                          "input_distribution": hist, "mbqc": {k: (round(v, 9) if isinstance(v, float) else v) for k, v in stats.items()},
-                         "exact_not_representable": sum(1 for t in out["exact"] if t is None)})
+                         "cumulative_seconds": timing, "exact_not_representable": sum(1 for t in out["exact"] if t is None)})
     for c, o in list(zip(tracker_cases, obs))[a_start:a_start + 2]:
         ctx.sample({"case": c, "observed": o})
     ctx.sample({"mbqc_circuit": circuits[2][1]})
